@@ -70,12 +70,15 @@ fn forms(ctx: &mut Ctx, env: &Env, rng: &mut Rng, base: &Engine, descr: &str) {
     outs.push(("Vec<String> with blank lines", e.synthesize(blank).map_err(|e| format!("{}", e))));
     // time stamps (100 ns units) while alignment is off: no effect
     let mut t = 0u64;
+    // (a label lasts at most 300 frames of the engine's frame period: with a frame period of one
+    // sample at 96 kHz, 0.3 s would be 28 800 frames per label once alignment is switched on)
+    let cap = (300.0 * e.condition.get_fperiod() as f64 * 1e7 / e.condition.get_sampling_frequency().max(1) as f64) as u64;
     let timed: Vec<String> = strings
         .iter()
         .map(|s| {
             let a = t;
             // (one line in ten gets an empty segment: start == end)
-            t += if rng.chance(0.1) { 0 } else { rng.range(0, 3_000_000) as u64 };
+            t += if rng.chance(0.1) { 0 } else { (rng.range(0, 3_000_000) as u64).min(cap.max(1)) };
             if rng.chance(0.8) {
                 format!("{} {} {}", a, t, s)
             } else {
